@@ -992,6 +992,8 @@ type encCase struct {
 	// encode_entry is a pure function of configuration, context, entry and fields): 0 fresh, 1 a field-less
 	// entry first, 2 an entry with the same fields first, 3 a field-less entry and a derived child first
 	preuse int
+	// active: the sink touches the pools (logs through another core) before it copies the payload
+	active bool
 }
 
 func genEncCase(r *RNG, big bool) *encCase {
@@ -1039,7 +1041,8 @@ func genEncCase(r *RNG, big bool) *encCase {
 		cls = "plain"
 	}
 	ec.preuse = r.Intn(4)
-	ec.meta = map[string]string{"nt": nt, "class": cls, "pre": fmt.Sprint(ec.preuse)}
+	ec.active = r.Chance(30)
+	ec.meta = map[string]string{"nt": nt, "class": cls, "pre": fmt.Sprint(ec.preuse), "active": fmt.Sprint(ec.active)}
 	return ec
 }
 
@@ -1055,9 +1058,42 @@ func catchPanic(fn func() []byte) (out []byte, pmsg string, panicked bool) {
 }
 
 // the real JSON encoder behind a real ioCore, With chain applied through Core.With
-type captureSink struct{ bytes.Buffer }
+type captureSink struct {
+	bytes.Buffer
+	// active: before it copies the payload the sink logs an audit record through another, prebuilt zap core
+	// (as a sink that reports to a second logger does), so a payload whose buffer was already returned to the
+	// pool is overwritten before it is read
+	active bool
+}
 
 func (*captureSink) Sync() error { return nil }
+
+func (s *captureSink) Write(p []byte) (int, error) {
+	if s.active {
+		auditActivity(len(p))
+	}
+	return s.Buffer.Write(p)
+}
+
+type discardSink struct{}
+
+func (discardSink) Write(p []byte) (int, error) { return len(p), nil }
+func (discardSink) Sync() error                 { return nil }
+
+var (
+	auditJSON = zapcore.NewCore(zapcore.NewJSONEncoder(zapcore.EncoderConfig{MessageKey: "m", LevelKey: "l", EncodeLevel: zapcore.LowercaseLevelEncoder}),
+		discardSink{}, zapcore.Level(-128)).With([]zapcore.Field{{Key: "audit", Type: zapcore.Int64Type, Integer: 7}})
+	auditConsole = zapcore.NewCore(zapcore.NewConsoleEncoder(zapcore.EncoderConfig{MessageKey: "m", LevelKey: "l", EncodeLevel: zapcore.CapitalLevelEncoder}),
+		discardSink{}, zapcore.Level(-128))
+)
+
+// the audit message is full of escapes (written by many small appends, so that a recycled buffer is overwritten
+// in place rather than reallocated) and at least as long as the payload being held by the caller
+func auditActivity(n int) {
+	msg := strings.Repeat("\"\\\n\t", n/4+8)
+	_ = auditJSON.Write(zapcore.Entry{Message: msg}, []zapcore.Field{{Key: "k", Type: zapcore.StringType, String: msg}})
+	_ = auditConsole.Write(zapcore.Entry{Message: msg}, []zapcore.Field{{Key: "r", Type: zapcore.ReflectType, Interface: map[string]int{"a": 1}}})
+}
 
 func (ec *encCase) runJSON(console bool) ([]byte, string, bool) {
 	return catchPanic(func() []byte {
@@ -1067,7 +1103,7 @@ func (ec *encCase) runJSON(console bool) ([]byte, string, bool) {
 		} else {
 			enc = zapcore.NewJSONEncoder(ec.cfg.real())
 		}
-		sink := &captureSink{}
+		sink := &captureSink{active: ec.active}
 		var core zapcore.Core = zapcore.NewCore(enc, sink, zapcore.Level(-128))
 		for _, fs := range ec.ctxs {
 			core = core.With(fs)
